@@ -1169,6 +1169,10 @@ func unmarshalCandidateExtensions(raw string) (extensions []CandidateExtension, 
 		}
 		i = next
 
+		if key == "" {
+			return extensions, "", fmt.Errorf("%w: empty key in %s", errParseExtension, raw)
+		}
+
 		// while not spec-compliant, we allow for empty values, as seen in the wild
 		var value string
 		if i < len(raw) {
